@@ -140,13 +140,14 @@ func (s *Session) OnEvent(event Event) {
 			close(s.connected)
 		}()
 	case *AddEvent:
-		// There's no compute if absent for sync.Map, figure a better way to do this if the pool already exists.
-		if pool, loaded := s.pools.LoadOrStore(evt.Host.Key(), connectPoolNoFail(s.ctx, connPoolConfig{
+		// There's no compute if absent for sync.Map, so the pool is created before it's known whether the host already
+		// has one. If it does, that pool stays in place and the new one is the one to get rid of.
+		newPool := connectPoolNoFail(s.ctx, connPoolConfig{
 			Endpoint:      evt.Host.Endpoint,
 			SessionConfig: s.config,
-		})); loaded {
-			p := pool.(*connPool)
-			p.cancel()
+		})
+		if _, loaded := s.pools.LoadOrStore(evt.Host.Key(), newPool); loaded {
+			newPool.cancel()
 		}
 	case *RemoveEvent:
 		if pool, ok := s.pools.LoadAndDelete(evt.Host.Key()); ok {
